@@ -1469,114 +1469,135 @@ static C04Res c17Once(const Instance& I, const ParamSet& cfg, int loadMode, uint
       if(s1 != s2) R.set("resolve-after-clearBasis-differs", "solving the same unmodified object again after clearBasis() differs: " + firstDiff(s1, s2));
       return R;
    }
-   // copies: build a history on A, copy at a random point, compare, then test independence both ways
-   std::unique_ptr<SoPlex> A(new SoPlex());
-   mk(*A);
-   int point = g.range(0, 4);       // 0 before solve, 1 after solve, 2 after aborted solve, 3 after solve+modification, 4 after solve+clearBasis
-   if(point >= 1)
+   // copies: build a history on A, copy at a random point, compare, then test independence both ways.
+   // Independence is judged against a "parallel universe": the identical scenario in which the other object is left alone.
+   uint64_t scen = g.next();
+   std::string nextSolve[2];
+   for(int universe = 0; universe < 2 && R.tag.empty(); universe++)
    {
-      if(point == 2) A->setIntParam(SoPlex::ITERLIMIT, g.range(0, 4), true);
-      A->optimize();
-      if(point == 2) A->setIntParam(SoPlex::ITERLIMIT, 100000, true);
-      if(point == 3) randomModification(g, *A);
-      if(point == 4) A->clearBasis();
-   }
-   bool byAssign = g.chance(0.5);
-   std::unique_ptr<SoPlex> B;
-   if(byAssign)
-   {
-      B.reset(new SoPlex());
-      // assignment into a used object
-      quiet(*B);
-      Planted pp;
-      Rng g2(5, subseed, 1);
-      LPModel other = genPlantedOpt(g2, pp, 4, 4, false);
-      loadReal(*B, other, 0);
-      if(g.chance(0.5)) B->optimize();
-      *B = *A;
-   }
-   else B.reset(new SoPlex(*A));
-   const char* how = byAssign ? "assign" : "copyctor";
-   if(count) S.count(std::string("c17.copies.") + how + ".point" + std::to_string(point));
-   // equal
-   {
-      std::string la = snapLP(*A), lb = snapLP(*B);
-      if(la != lb)
+      bool hammer = universe == 0;
+      Rng h(4711, scen, 3);
+      std::unique_ptr<SoPlex> A(new SoPlex());
+      mk(*A);
+      int point = h.range(0, 4);       // 0 before solve, 1 after solve, 2 after aborted solve, 3 after solve+modification, 4 after solve+clearBasis
+      if(point >= 1)
       {
-         R.set(std::string("copy-unequal.lp.") + how, "copy has a different LP: " + firstDiff(la, lb));
-         return R;
+         if(point == 2) A->setIntParam(SoPlex::ITERLIMIT, h.range(0, 4), true);
+         A->optimize();
+         if(point == 2) A->setIntParam(SoPlex::ITERLIMIT, 100000, true);
+         if(point == 3) randomModification(h, *A);
+         if(point == 4) A->clearBasis();
       }
-      std::string pa = snapParams(*A), pb = snapParams(*B);
-      if(pa != pb)
+      bool byAssign = h.chance(0.5);
+      std::unique_ptr<SoPlex> B;
+      if(byAssign)
       {
-         R.set(std::string("copy-unequal.params.") + how, "copy has different parameters: " + firstDiff(pa, pb));
-         return R;
+         B.reset(new SoPlex());
+         quiet(*B);
+         Planted pp;
+         Rng g2(5, subseed, 1);
+         LPModel other = genPlantedOpt(g2, pp, 4, 4, false);
+         loadReal(*B, other, 0);
+         if(h.chance(0.5)) B->optimize();
+         *B = *A;
       }
-      std::string sa = snapSol(*A, false), sb = snapSol(*B, false);
-      if(sa != sb)
+      else B.reset(new SoPlex(*A));
+      const char* how = byAssign ? "assign" : "copyctor";
+      if(count && universe == 0) S.count(std::string("c17.copies.") + how + ".point" + std::to_string(point));
+      if(universe == 0)
       {
-         R.set(std::string("copy-unequal.solution.") + how + ".point" + std::to_string(point), "copy has different status/basis/solution: " + firstDiff(sa,
-               sb));
-         return R;
+         std::string la = snapLP(*A), lb = snapLP(*B);
+         if(la != lb)
+         {
+            R.set(std::string("copy-unequal.lp.") + how, "copy has a different LP: " + firstDiff(la, lb));
+            break;
+         }
+         std::string pa = snapParams(*A), pb = snapParams(*B);
+         if(pa != pb)
+         {
+            R.set(std::string("copy-unequal.params.") + how, "copy has different parameters: " + firstDiff(pa, pb));
+            break;
+         }
+         std::string sa = snapSol(*A, false), sb = snapSol(*B, false);
+         if(sa != sb)
+         {
+            R.set(std::string("copy-unequal.solution.") + how + ".point" + std::to_string(point), "copy has different status/basis/solution: " + firstDiff(sa,
+                  sb));
+            break;
+         }
       }
-   }
-   // a re-solve of both gives identical results
-   if(g.chance(0.5))
-   {
-      A->optimize();
-      B->optimize();
-      if(count) S.count("c17.copy_resolve_compared");
-      std::string sa = snapSol(*A), sb = snapSol(*B);
-      if(sa != sb)
+      bool alsoResolve = h.chance(0.4);
+      if(alsoResolve)
       {
-         R.set(std::string("copy-resolve-differs.") + how + ".point" + std::to_string(point), "source and copy re-solved differ: " + firstDiff(sa, sb));
-         return R;
+         // a re-solve of both must agree in verdict and optimal value (bit-identical paths are not claimed for copies)
+         A->optimize();
+         B->optimize();
+         if(universe == 0)
+         {
+            if(count) S.count("c17.copy_resolve_compared");
+            int sa = (int)A->status(), sb = (int)B->status();
+            bool da = definiteStatus(sa), db = definiteStatus(sb);
+            if(da && db && !sameVerdict(sa, sb)) R.set(std::string("copy-resolve-status.") + how, std::string("source re-solved: ") + statusName(sa) + ", copy re-solved: " + statusName(sb));
+            else if(sa == SPX::OPTIMAL && sb == SPX::OPTIMAL)
+            {
+               double va = A->objValueReal(), vb = B->objValueReal();
+               if(std::fabs(va - vb) > 1e-6 * (1.0 + std::fabs(va))) R.set(std::string("copy-resolve-objective.") + how, "source re-solved: " + ds(va) + ", copy re-solved: " + ds(vb));
+            }
+            if(snapSol(*A) != snapSol(*B) && count) S.count("c17.note.copy_resolve_not_bit_identical");
+            if(!R.tag.empty()) break;
+         }
       }
-   }
-   // independence: snapshot the victim, hammer the other, compare
-   bool victimIsCopy = g.chance(0.5);
-   SoPlex* V = victimIsCopy ? B.get() : A.get();
-   std::unique_ptr<SoPlex>& Hp = victimIsCopy ? A : B;
-   std::string vlp = snapLP(*V), vpar = snapParams(*V), vsol = snapSol(*V, false);
-   // what the victim's next solve should give: take it from an independent twin of the victim made BEFORE hammering
-   std::unique_ptr<SoPlex> W(new SoPlex(*V));
-   int nops = g.range(2, 8);
-   for(int t = 0; t < nops; t++)
-   {
-      int w = g.range(0, 5);
-      if(w <= 1) randomModification(g, *Hp);
-      else if(w == 2) randomParamChange(g, *Hp);
-      else if(w == 3) Hp->optimize();
-      else if(w == 4) Hp->clearBasis();
-      else Hp->setIntParam(SoPlex::OBJSENSE, -Hp->intParam(SoPlex::OBJSENSE));
-   }
-   bool destroyed = g.chance(0.5);
-   if(destroyed) Hp.reset();
-   if(count) S.count(std::string("c17.independence.") + (victimIsCopy ? "modify-source" : "modify-copy") + (destroyed ? ".destroy" : ""));
-   {
-      std::string a1 = snapLP(*V), a2 = snapParams(*V), a3 = snapSol(*V, false);
+      bool victimIsCopy = h.chance(0.5);
+      SoPlex* V = victimIsCopy ? B.get() : A.get();
+      std::unique_ptr<SoPlex>& Hp = victimIsCopy ? A : B;
+      std::string vlp = snapLP(*V), vpar = snapParams(*V), vsol = snapSol(*V, false);
+      int nops = h.range(2, 8);
+      bool destroyed = false;
+      {
+         // draw the hammer script in both universes so that the random stream stays aligned
+         for(int t = 0; t < nops; t++)
+         {
+            int w = h.range(0, 5);
+            Rng hs(99, scen, (uint64_t)t);
+            if(!hammer) continue;
+            if(w <= 1) randomModification(hs, *Hp);
+            else if(w == 2) randomParamChange(hs, *Hp);
+            else if(w == 3) Hp->optimize();
+            else if(w == 4) Hp->clearBasis();
+            else Hp->setIntParam(SoPlex::OBJSENSE, -Hp->intParam(SoPlex::OBJSENSE));
+         }
+         destroyed = h.chance(0.5);
+         if(hammer && destroyed) Hp.reset();
+      }
       const char* dir = victimIsCopy ? "source-affects-copy" : "copy-affects-source";
-      if(a1 != vlp)
+      if(hammer)
       {
-         R.set(std::string("dependent.lp.") + dir, "LP of one object changed by operations on the other: " + firstDiff(vlp, a1));
-         return R;
-      }
-      if(a2 != vpar)
-      {
-         R.set(std::string("dependent.params.") + dir, "parameters/tolerances of one object changed by operations on the other: " + firstDiff(vpar, a2));
-         return R;
-      }
-      if(a3 != vsol)
-      {
-         R.set(std::string("dependent.solution.") + dir, "status/basis/solution of one object changed by operations on the other: " + firstDiff(vsol, a3));
-         return R;
+         if(count) S.count(std::string("c17.independence.") + (victimIsCopy ? "modify-source" : "modify-copy") + (destroyed ? ".destroy" : ""));
+         std::string a1 = snapLP(*V), a2 = snapParams(*V), a3 = snapSol(*V, false);
+         if(a1 != vlp)
+         {
+            R.set(std::string("dependent.lp.") + dir, "LP of one object changed by operations on the other: " + firstDiff(vlp, a1));
+            break;
+         }
+         if(a2 != vpar)
+         {
+            R.set(std::string("dependent.params.") + dir, "parameters/tolerances of one object changed by operations on the other: " + firstDiff(vpar, a2));
+            break;
+         }
+         if(a3 != vsol)
+         {
+            R.set(std::string("dependent.solution.") + dir, "status/basis/solution of one object changed by operations on the other: " + firstDiff(vsol, a3));
+            break;
+         }
       }
       V->optimize();
-      W->optimize();
-      std::string sv = snapSol(*V), sw = snapSol(*W);
-      if(count) S.count("c17.independence_next_solve_compared");
-      if(sv != sw) R.set(std::string("dependent.next-solve.") + dir, "next solve of the untouched object differs from that of its pristine twin: " + firstDiff(
-                               sw, sv));
+      nextSolve[universe] = snapSol(*V);
+      if(universe == 1)
+      {
+         if(count) S.count("c17.independence_next_solve_compared");
+         if(nextSolve[0] != nextSolve[1]) R.set(std::string("dependent.next-solve.") + dir,
+                                                   "the next solve of the untouched object depends on whether the other object was modified/solved/destroyed: " + firstDiff(nextSolve[1], nextSolve[0]));
+      }
    }
    return R;
 }
